@@ -2,6 +2,7 @@ package checks
 
 import (
 	"fmt"
+	"github.com/crate-crypto/go-ipa/zzverif/vatomic"
 	"math/big"
 	"os"
 	"sort"
@@ -254,6 +255,121 @@ func init() {
 						fail(r, fmt.Sprintf("pool answers not enumerated: %v", st.Outcomes))
 					}
 					r.Evals += int64(st.Execs)
+				}},
+				{Name: "seeded bugs of two callers at once are found by the caller-switch search (and only with its ingredients)", Run: func(ctx *core.Ctx, r *core.Result) {
+					if !vsched.Instrumented {
+						return
+					}
+					two := func(mk func() func(k int) string) func() string {
+						return func() string {
+							f := mk() // fresh shared state for every execution
+							outs := make([]string, 2)
+							var wg vsched.WaitGroup
+							wg.Add(2)
+							vsched.Go1(func(k int) { defer wg.Done(); outs[0] = f(k) }, 0)
+							vsched.Go1(func(k int) { defer wg.Done(); outs[1] = f(k) }, 1)
+							wg.Wait()
+							return outs[0] + "|" + outs[1]
+						}
+					}
+					search := func(body func() string, post bool) *explore.Stats {
+						vsched.FamilyAffinity, vsched.PostPoints = true, post
+						defer func() { vsched.FamilyAffinity, vsched.PostPoints = false, false }()
+						return explore.Bounded(body, explore.Options{MaxBound: 1, SchedOnly: true, Allow: callerSwitch})
+					}
+					// (1) a table published before it is complete: flag stored (atomically), data written afterwards
+					mk1 := func() func() string {
+						return two(func() func(k int) string {
+							var built uint32
+							var mu vsched.Mutex
+							table := 0
+							return func(k int) string {
+								if vatomic.LoadUint32(&built) == 0 {
+									mu.Lock()
+									if vatomic.LoadUint32(&built) == 0 {
+										vatomic.StoreUint32(&built, 1)
+										table = 42
+									}
+									mu.Unlock()
+								}
+								return fmt.Sprint(table)
+							}
+						})
+					}
+					if st := search(mk1(), true); st.Outcomes["42|42"] == 0 || len(st.Outcomes) < 2 {
+						fail(r, fmt.Sprintf("flag-before-data publication not found with post points: %v", st.Outcomes))
+					} else {
+						r.Evals += int64(st.Execs)
+					}
+					if st := search(mk1(), false); len(st.Outcomes) != 1 {
+						fail(r, fmt.Sprintf("flag-before-data publication: expected to be invisible without post points (a point before each operation only): %v", st.Outcomes))
+					}
+					if st := explore.DPOR(mk1(), explore.Options{DataBudget: -1}); len(st.Outcomes) != 1 {
+						fail(r, fmt.Sprintf("flag-before-data publication: DPOR is expected not to see the unsynchronised accesses: %v", st.Outcomes))
+					}
+					// (2) a memo refilled under a lock and read after the lock was released
+					mk2 := func() func() string {
+						return two(func() func(k int) string {
+							var mu vsched.Mutex
+							row := 0
+							return func(k int) string {
+								mu.Lock()
+								row = 10 + k
+								mu.Unlock()
+								return fmt.Sprint(row)
+							}
+						})
+					}
+					if st := search(mk2(), true); st.Outcomes["10|11"] == 0 || len(st.Outcomes) < 2 {
+						fail(r, fmt.Sprintf("read-after-unlock of a shared memo not found: %v", st.Outcomes))
+					} else {
+						r.Evals += int64(st.Execs)
+					}
+					// (3) a scratch buffer shared without any synchronisation, used across a fan-out of the call
+					mk3 := func() func() string {
+						return two(func() func(k int) string {
+							scratch := 0
+							return func(k int) string {
+								scratch = 100 + k
+								var wg vsched.WaitGroup
+								got := 0
+								wg.Add(1)
+								vsched.Go0(func() { got = scratch; wg.Done() })
+								wg.Wait()
+								return fmt.Sprint(got)
+							}
+						})
+					}
+					if st := search(mk3(), false); st.Outcomes["100|101"] == 0 || len(st.Outcomes) < 2 {
+						fail(r, fmt.Sprintf("unsynchronised scratch buffer across a fan-out not found: %v", st.Outcomes))
+					} else {
+						r.Evals += int64(st.Execs)
+					}
+					// (4) correct counterparts give one outcome
+					ok1 := func() func() string {
+						return two(func() func(k int) string {
+							var built uint32
+							var mu vsched.Mutex
+							table := 0
+							return func(k int) string {
+								if vatomic.LoadUint32(&built) == 0 {
+									mu.Lock()
+									if vatomic.LoadUint32(&built) == 0 {
+										table = 42
+										vatomic.StoreUint32(&built, 1)
+									}
+									mu.Unlock()
+								}
+								return fmt.Sprint(table)
+							}
+						})
+					}
+					if st := search(ok1(), true); len(st.Outcomes) != 1 || st.Outcomes["42|42"] == 0 {
+						fail(r, fmt.Sprintf("correct lazy initialisation reported as schedule-dependent: %v", st.Outcomes))
+					}
+					if st := explore.DPOR(ok1(), explore.Options{DataBudget: -1}); len(st.Outcomes) != 1 || st.Execs < 2 {
+						fail(r, fmt.Sprintf("DPOR over atomic operations: %d executions, outcomes %v", st.Execs, st.Outcomes))
+					}
 				}},
 				{Name: "DPOR vs reduction-free search on a family of small programs", Run: func(ctx *core.Ctx, r *core.Result) {
 					if !vsched.Instrumented {
